@@ -60,14 +60,16 @@ class DispatchTemplatePattern(RewritePattern):
                     continue
 
                 # kernel supported, check operand types
-                for template_el_type, kernel_el in zip(
-                    supported_kernel.operand_types,
-                    (*kernel_op.operands, *kernel_op.results),
-                    strict=True,
+                if any(
+                    template_el_type != kernel_el.type
+                    for template_el_type, kernel_el in zip(
+                        supported_kernel.operand_types,
+                        (*kernel_op.operands, *kernel_op.results),
+                        strict=True,
+                    )
                 ):
-                    if template_el_type != kernel_el.type:
-                        # no match, continue
-                        continue
+                    # no match, continue
+                    continue
 
                 # kernel supported & operand types matched successfully
                 matched_accelerator = accelerator
